@@ -680,8 +680,8 @@ pub fn exec(line: &str, _model: &mut Model) -> Option<Exec> {
             let mut e;
             match r {
                 None => { e = Exec::new("panic".into());
-                    // a report about a whole (non-fragment) bundle for one of the four status items must come into being
-                    if b.primary.bundle_control_flags & 1 == 0 && pos < 4 { e.oracle_fail = Some("building the status-report bundle panics for a non-fragment subject and a defined status item".into()); } }
+                    // a report about a whole (non-fragment) bundle with somewhere to report to, for one of the four status items, must come into being
+                    if b.primary.bundle_control_flags & 1 == 0 && pos < 4 && b.primary.report_to != EndpointID::none() { e.oracle_fail = Some("building the status-report bundle panics for a non-fragment subject and a defined status item".into()); } }
                 Some(mut rb) => {
                     // the sequence number comes from the process-wide generator: normalise it
                     let seq_real = rb.primary.creation_timestamp.seqno();
